@@ -38,6 +38,13 @@ FLAVOURS = {
                 "--target", "x86_64-unknown-linux-gnu"],
         "bin": "x86_64-unknown-linux-gnu/release/fselect",
     },
+    # development aid (tools/coverage.sh): which source lines do the workloads reach? Never a deciding binary.
+    "cov": {
+        "target": "target-cov",
+        "env": {"CARGO_PROFILE_RELEASE_LTO": "false", "RUSTFLAGS": "-Cinstrument-coverage"},
+        "cmd": ["cargo", "+nightly", "build", "--release", "--features", "verif", "--offline"],
+        "bin": "release/fselect",
+    },
 }
 
 
